@@ -251,6 +251,112 @@ theorem header_prefix_unused (name : Bytes) (mode uid gid size : Nat) (mtime : I
   rw [slice_updateChecksum_hi _ _ _ (rawHeader_length name mode uid gid size mtime tf linkname maj min hn hl) (by decide)]
   exact raw_prefix name mode uid gid size mtime tf linkname maj min hn hl
 
+/-! ## foreign dialects: what `read_header` makes of headers it did not write -/
+
+/--
+**`decode_header`, field by field, every dialect.**  For every 512-byte block (v7, pre-POSIX/GNU, POSIX ustar — with or
+without a ustar `prefix`), whatever `set_by_pax` mask and partial header the extension records before it left behind,
+`decode_header` delivers exactly the specification `specDecode` (`Sqfs/Spec/TarHeader.lean`): every numeric field is the exact
+value its bytes encode (octal digit run or base-256 two's complement, `readNumber_exact_or_error`) or the header is refused;
+values supplied by PAX records win; the name is `prefix/name` exactly for a POSIX block with a non-empty prefix; the type flag
+selects the file type; unknown type flags are marked for skipping.
+-/
+theorem decode_header_spec (h : Bytes) (mask : Nat) (out : Decoded) (v : Version) :
+    decodeHeader h mask out v = specDecode h mask out v :=
+  decodeHeader_eq_spec h mask out v
+
+/--
+**A plain member header of any dialect through `read_header`.**  A block with one of the three recognised magic/version pairs,
+a valid checksum and a type flag other than the extension records ('K', 'L', 'g', 'x') and the old GNU sparse header ('S'),
+standing first in the stream: `read_header` consumes exactly the block and returns `specDecode` of it (`actual_size =
+record_size`), or fails when a numeric field does not hold a number.  (`read_header_after_records` is the same statement with
+the state that GNU 'L'/'K' and PAX records leave behind.)
+-/
+theorem read_header_plain_block (h rest : Bytes) (v : Version)
+    (hl : h.length = 512) (hnz : isZeroBlock h = false) (hv : checkVersion h = some v) (hck : isChecksumValid h = true)
+    (htf : (slice h 156 1).headD 0 ≠ 75 ∧ (slice h 156 1).headD 0 ≠ 76 ∧ (slice h 156 1).headD 0 ≠ 103 ∧
+           (slice h 156 1).headD 0 ≠ 120 ∧ (slice h 156 1).headD 0 ≠ 83) :
+    readHeader (h ++ rest) =
+      match specDecode h 0 {} v with
+      | none => .err
+      | some d => .ok { d with actualSize := d.recordSize } rest := by
+  unfold readHeader readHeaderWith
+  exact loop_plain {} _ h rest false v 0 {} hl hnz hv hck htf rfl (by decide)
+
+theorem read_header_after_records (cfg : ReadCfg) (f : Nat) (h rest : Bytes) (pz : Bool) (v : Version) (mask : Nat) (out : Decoded)
+    (hl : h.length = 512) (hnz : isZeroBlock h = false) (hv : checkVersion h = some v) (hck : isChecksumValid h = true)
+    (htf : (slice h 156 1).headD 0 ≠ 75 ∧ (slice h 156 1).headD 0 ≠ 76 ∧ (slice h 156 1).headD 0 ≠ 103 ∧
+           (slice h 156 1).headD 0 ≠ 120 ∧ (slice h 156 1).headD 0 ≠ 83)
+    (hsp : out.sparse = []) (hgnu : hasFlag mask PAX_SPARSE_GNU_1_X = false) :
+    readHeaderLoop cfg (f + 1) (h ++ rest) out mask pz =
+      match specDecode h mask out v with
+      | none => .err
+      | some d => .ok { d with actualSize := d.recordSize } rest :=
+  loop_plain cfg f h rest pz v mask out hl hnz hv hck htf hsp hgnu
+
+/--
+**GNU long name / long link records and the PAX extended header, from any writer.**  A record whose header block the reader
+recognises (any dialect, valid checksum) with type flag 'L' / 'K' / 'x' and a size field between 1 and 65536, followed by that
+many payload bytes and the padding to the next 512-byte boundary: the loop of `read_header` takes the payload's C string as the
+member's name resp. link target and sets `PAX_NAME` / `PAX_SLINK_TARGET` so that the following header's own fields lose; for
+'x' it restarts from an empty header with what `read_pax_header` makes of the payload.
+-/
+theorem gnu_long_records (cfg : ReadCfg) (f : Nat) (H p rest : Bytes) (out : Decoded) (mask : Nat) (pz : Bool)
+    (h1 : 1 ≤ p.length) (h2 : p.length ≤ 65536) :
+    (IsHdr H 76 p.length →
+      readHeaderLoop cfg (f + 1) (H ++ (p ++ (zeros (padding p.length) ++ rest))) out mask pz =
+        readHeaderLoop cfg f rest { out with name := some (cstr p) } (setFlag mask PAX_NAME) false) ∧
+    (IsHdr H 75 p.length →
+      readHeaderLoop cfg (f + 1) (H ++ (p ++ (zeros (padding p.length) ++ rest))) out mask pz =
+        readHeaderLoop cfg f rest { out with link := some (cstr p) } (setFlag mask PAX_SLINK_TARGET) false) ∧
+    (IsHdr H 120 p.length → ∀ out' mask',
+      readPaxHeader ⟨cfg.xattrKeepOrder, cfg.schilyKeyDecode⟩ p {} 0 = some (out', mask') →
+      readHeaderLoop cfg (f + 1) (H ++ (p ++ (zeros (padding p.length) ++ rest))) out mask pz =
+        readHeaderLoop cfg f rest out' mask' false) :=
+  ⟨fun h => loop_L cfg f H p rest out mask pz h h1 h2, fun h => loop_K cfg f H p rest out mask pz h h1 h2,
+   fun h out' mask' hp => loop_x cfg f H p rest out mask pz h h1 h2 out' mask' hp⟩
+
+/-- … for instance a GNU long-name member from a foreign writer (any dialect for either block): the name is the record's
+    payload, everything else is the following block's own fields -/
+theorem gnu_long_name_member (HL p h rest : Bytes) (v : Version)
+    (hL : IsHdr HL 76 p.length) (h1 : 1 ≤ p.length) (h2 : p.length ≤ 65536)
+    (hl : h.length = 512) (hnz : isZeroBlock h = false) (hv : checkVersion h = some v) (hck : isChecksumValid h = true)
+    (htf : (slice h 156 1).headD 0 ≠ 75 ∧ (slice h 156 1).headD 0 ≠ 76 ∧ (slice h 156 1).headD 0 ≠ 103 ∧
+           (slice h 156 1).headD 0 ≠ 120 ∧ (slice h 156 1).headD 0 ≠ 83) :
+    readHeader (HL ++ (p ++ (zeros (padding p.length) ++ (h ++ rest)))) =
+      match specDecode h PAX_NAME { name := some (cstr p) } v with
+      | none => .err
+      | some d => .ok { d with actualSize := d.recordSize } rest := by
+  unfold readHeader readHeaderWith
+  have hlen : (HL ++ (p ++ (zeros (padding p.length) ++ (h ++ rest)))).length / 512 + 2 =
+      ((HL ++ (p ++ (zeros (padding p.length) ++ (h ++ rest)))).length / 512) + 1 + 1 := rfl
+  rw [hlen, loop_L {} _ HL p (h ++ rest) {} 0 false hL h1 h2]
+  have hm : setFlag 0 PAX_NAME = PAX_NAME := by decide
+  rw [hm]
+  exact loop_plain {} _ h rest false v PAX_NAME { name := some (cstr p) } hl hnz hv hck htf rfl (by decide)
+
+/--
+**The PAX record parser, any keyword.**  On a well-formed record `"%d %s=%s\n"` (keyword without NUL/'=' and not starting with
+white space, arbitrary value bytes, the decimal length in front counting itself) the parser of `read_pax_header` — `strtol`, the
+in-place NUL edits, the blank skip, the key scan — hands exactly the keyword and the value to the handler table (`paxApply`:
+`find_handler`/`apply_handler` and the GNU.sparse.offset/numbytes pair) and consumes exactly the record.
+In particular `path` / `linkpath` records set the member's name / link target to the value's C string and mark it as set by PAX.
+-/
+theorem pax_record_spec (pc : PaxCfg) (st : PaxState) (kw value rest : Bytes) (hne : kw ≠ [])
+    (hk : ∀ x ∈ kw, x ≠ 0 ∧ x ≠ 61) (hsp : isSpace (kw.headD 0) = false) :
+    paxLine pc st (paxRecord kw value ++ rest) = paxApply pc st kw value (paxRecord kw value).length ∧
+    paxApply pc st (ascii "path") value (paxRecord (ascii "path") value).length =
+      some ({ st with out := { st.out with name := some (cstr value) }, mask := setFlag st.mask PAX_NAME },
+            (paxRecord (ascii "path") value).length) ∧
+    paxApply pc st (ascii "linkpath") value (paxRecord (ascii "linkpath") value).length =
+      some ({ st with out := { st.out with link := some (cstr value) }, mask := setFlag st.mask PAX_SLINK_TARGET },
+            (paxRecord (ascii "linkpath") value).length) := by
+  refine ⟨paxLine_record pc st kw value rest hne hk hsp, ?_, ?_⟩
+  · have : findHandler (ascii "path") = some .path := by decide
+    simp only [paxApply, this, applyHandler, kindFlag]
+  · have : findHandler (ascii "linkpath") = some .linkpath := by decide
+    simp only [paxApply, this, applyHandler, kindFlag]
+
 /-! ## sparse files (`iterator.c`) -/
 
 /--
@@ -451,6 +557,30 @@ theorem implicit_parents (o : ConvOpts) (t t' : List TNode) (e : CEntry) (h : ad
               subst h
               exact ⟨n, List.mem_append_left _ hn, hnp, hnd⟩
 
+/-- **`--root-becomes` link retarget** (repaired rule): a link target is either left exactly as it is, or — when its
+    canonical form lies below the new root `r` — replaced by the part after `r` (which starts with '/') -/
+theorem retarget_spec (r l : Bytes) :
+    retarget r l = l ∨ ∃ rest, Sqfs.Path.canonicalize l = some (r ++ Sqfs.Path.SL :: rest) ∧ retarget r l = Sqfs.Path.SL :: rest := by
+  unfold retarget
+  cases hc : Sqfs.Path.canonicalize l with
+  | none => exact Or.inl rfl
+  | some c =>
+    simp only
+    by_cases h : c.take r.length = r ∧ (c.drop r.length).head? = some Sqfs.Path.SL
+    · rw [if_pos h]
+      right
+      cases hd : c.drop r.length with
+      | nil => rw [hd] at h; simp at h
+      | cons x rest =>
+        rw [hd] at h
+        simp only [List.head?_cons, Option.some.injEq] at h
+        obtain ⟨h1, rfl⟩ := h
+        refine ⟨rest, ?_, rfl⟩
+        have := take_eq_split c r h1
+        rw [hd] at this
+        rw [this]
+    · rw [if_neg h]; exact Or.inl rfl
+
 /-! ## fix-point -/
 
 /--
@@ -636,5 +766,30 @@ example : FromImage exImg exTree where
 set_option maxRecDepth 1000000 in
 set_option maxHeartbeats 4000000 in
 example : tar2sqfsTree {} (sqfs2tar exImg exTree) = some (exTree, devsOf exImg exTree) := by decide
+
+/-! #### foreign dialects: a POSIX ustar block with a `prefix` (a dialect the own writer never produces), a GNU 'L' record
+header, a PAX `path` record -/
+abbrev posixBlock : Bytes :=
+  updateChecksum (field 100 (ascii "file") ++ writeNumber 0o644 8 ++ writeNumber 1000 8 ++ writeNumber 100 8 ++ writeNumber 5 12 ++
+    writeNumber 1542905892 12 ++ zeros 8 ++ [48] ++ zeros 100 ++ [117, 115, 116, 97, 114, 0] ++ [48, 48] ++ field 32 (ascii "user") ++
+    field 32 (ascii "group") ++ writeNumber 0 8 ++ writeNumber 0 8 ++ field 155 (ascii "some/dir") ++ zeros 12)
+
+set_option maxRecDepth 1000000 in
+example : posixBlock.length = 512 ∧ isZeroBlock posixBlock = false ∧ checkVersion posixBlock = some .posix ∧
+    isChecksumValid posixBlock = true ∧ (slice posixBlock 156 1).headD 0 = 48 := by decide
+
+set_option maxRecDepth 1000000 in
+example : (specDecode posixBlock 0 {} .posix).map (fun d => (d.name, d.mode, d.uid, d.gid, d.recordSize, d.mtime)) =
+    some (some (ascii "some/dir/file"), 0o100644, 1000, 100, 5, 1542905892) := by decide
+
+example : IsHdr (hdrBlock (field 100 ((ascii "././@LongLink").take 99)) 0o644 0 0 (ascii "a/long/name").length 0 76 (zeros 100) 0 0) 76
+    (ascii "a/long/name").length :=
+  ext_isHdr ⟨[], 0, 0, 0, 0, 0, 0, 0, false⟩ (ascii "a/long/name") 76 (ascii "././@LongLink") (by decide)
+
+example : (paxRecord (ascii "path") (ascii "x/y")) = ascii "12 path=x/y\n" := by decide
+
+/-- `implicit_parents`: its hypothesis is satisfiable (two directories are created implicitly) -/
+example : (addGeneric {} [] ⟨ascii "a/b/c", 0o100644, 0, 0, 0, false, none, 0, 0⟩).map (fun t => t.map (·.path)) =
+    some [[ascii "a"], [ascii "a", ascii "b"], [ascii "a", ascii "b", ascii "c"]] := by decide
 
 end Sqfs.C04
